@@ -224,7 +224,10 @@ fn score<'a>(p: Performance<'a>, k: usize) -> Performance<'a> {
         1 => p.accuracy(93.7).misses(1),
         // a complete hit-result specification that does not fit the map (too few results, combo beyond the maximum):
         // every entry point has to complete / clamp it the same way
-        _ => p.combo(100_000).n300(3).n100(1).n50(0).misses(2),
+        2 => p.combo(100_000).n300(3).n100(1).n50(0).misses(2),
+        // an imperfect slider play: every slider end / tick dropped (score-dependent adjustments must stay inside the calculation
+        // and not leak into the attributes that are handed back)
+        _ => p.slider_end_hits(0).large_tick_hits(0).small_tick_hits(0).misses(1).combo(2),
     }
 }
 
@@ -354,7 +357,7 @@ fn run_entry(i: usize, sc: &Scenario, maps: &Maps, out: &mut Vec<Value>, checks:
         // the reference is built through Difficulty setters (an independent path), restricted to what the mode's builder accepts
         let attrs_d = diff_from_abs_for(&ev.attrs_with, mode);
         let perf_d = diff_from_abs_for(&ev.perf_with, mode);
-        for k in 0..(if setter_after_gen { 1 } else { 3 }) {
+        for k in 0..(if setter_after_gen { 1 } else { 4 }) {
             *checks += 1;
             let real = guarded(|| {
                 let mut p = score(build_entry(&sc.entry, mode, map, &perf_d), k);
